@@ -6,6 +6,10 @@ ids = [json.loads(l)["id"] for l in open(os.path.join(V, "properties.jsonl"))]
 
 T = "Coq 8.16 theorems over the hand-written Gallina model, closed by the kernel (no axioms); model tied to /repo on every run by regenerated constants and by differential execution of the extracted model against libsrtp (ASan/UBSan) on generated scripts; independent monitors on the implementation's transcript give the replay. "
 CLAIMED = {
+ "C02": (T + "Theorems: byte-level description of what srtp_protect_rtcp emits (header | body xor keystream when E | E+index | MKI | tag); the trailer's E flag and index are the ones the receiver extracts; the monadic protect/unprotect refine pure functions; unprotect_rtcp(protect_rtcp(p)) = p byte for byte with status ok, for every packet >= 8 octets, every MKI setting, encrypt+auth / auth-only / none, either alias mode on either side, for explicit streams of the internal crypto configuration. PARTIAL: GCM / AES-192 / other back ends are not built here; the wildcard-clone path is proved separately (C13/C14/C17).",
+         "6.C02", "Coq proof (refinement of the monadic SRTCP code to a byte-level wire function + round-trip theorem) + differential round-trip runs"),
+ "C03": (T + "Theorems: the model's AES-ICM counter handling, IV formation (SRTP and SRTCP), keystream application and key derivation (labels 0..7, key/salt/auth lengths, 128- and 256-bit master keys) equal an independent Gallina specification written from RFC 3711 over AES-ECB only (with the RFC's B.2/B.3 vectors as Examples); SRTCP packet layout by C02's wire theorem. The check additionally runs the specification against libsrtp's packets (spec_rtp / spec_rtcp / spec_kdf ops). Known finding F8a (RFC 6904 keystream not positional) reported as KNOWN-FINDING. PARTIAL: GCM (RFC 7714), AES-192 (RFC 6188) and the other crypto back ends are not built in this configuration.",
+         "6.C03", "Coq proof (model's crypto glue = independent RFC 3711 specification) + specification run against the library's packets"),
  "C04": (T + "Theorems: accepted by srtp_unprotect => tag octets = HMAC(k_a, all octets before the MKI || ROC); SRTCP: E bit / index from the trailer, tag over packet || trailer; the key used is the one the MKI names; tag comparison (model and both C chunk schedules) is equality; under an explicit collision-freeness premise accepted => authenticated portion is the sender's. Every single-bit flip / truncation / extension / splice of genuine packets compared with the model (which computes the real HMAC). PARTIAL: unforgeability of HMAC-SHA1 is a cryptographic assumption, replaced by an explicit idealisation premise.",
          "6.C04", "Coq proof (tag-acceptance characterisation + idealised-MAC corollary) + mutation runs"),
  "C20": (T + "Theorems: in the wipe/free event trace of srtp_stream_dealloc / srtp_dealloc (a function of the session structure, sizes regenerated from the headers) every AES-ICM context, HMAC block and MKI copy is wiped in full immediately before it is freed, and every salt is wiped before the session-keys array is freed. The implementation's own events are compared event by event; every freed block is scanned for the secrets the model's KDF computes. PARTIAL: dead-store elimination / stack residue outside the model.",
